@@ -87,7 +87,8 @@ RenderWith(u, x) ==
   IN Pad(u.pl) \o scheme \o auth \o host \o port \o path \o query \o frag \o Pad(u.pr)
 WithCtrl(u, s) ==
   IF u.ct = 0 THEN s
-  ELSE LET pos == ((u.ct * Len(s)) \div 4) IN SubSeq(s, 1, pos) \o <<CtrlChar(u.ct)>> \o SubSeq(s, pos + 1, Len(s))
+  ELSE LET pos == IF u.ct = 4 THEN 0 ELSE IF u.ct = 5 THEN Len(s) ELSE ((u.ct * Len(s)) \div 4)     \* inside, very start, very end
+       IN SubSeq(s, 1, pos) \o <<CtrlChar(u.ct)>> \o SubSeq(s, pos + 1, Len(s))
 RenderX(u, x) == WithCtrl(u, RenderWith(u, x))
 Render(u) == RenderX(u, NoExtras)
 
@@ -117,7 +118,7 @@ Succ(u) ==
   \cup (IF ~B.hasfrag THEN {[kind |-> "EmptyFragment", u |-> [u EXCEPT !.ef = ~u.ef]]} ELSE {})
   \cup {[kind |-> "PadWhitespace", u |-> [u EXCEPT !.pl = m]] : m \in {0, 1, 2} \ {u.pl}}
   \cup {[kind |-> "PadWhitespace", u |-> [u EXCEPT !.pr = m]] : m \in {0, 1, 2} \ {u.pr}}
-  \cup {[kind |-> "InsertControl", u |-> [u EXCEPT !.ct = m]] : m \in {0, 1, 2, 3} \ {u.ct}}
+  \cup {[kind |-> "InsertControl", u |-> [u EXCEPT !.ct = m]] : m \in {0, 1, 2, 3, 4, 5} \ {u.ct}}
 RewriteKinds == {"FlipSchemeCase", "FlipHostCase", "TogglePunycode", "ToggleDefaultPort", "EscapeSafe", "LowerHex",
            "PathSegments", "EmptyQuery", "EmptyFragment", "PadWhitespace", "InsertControl"}
 
